@@ -1,5 +1,5 @@
 use super::field_utils::{parse_name_and_address, parse_party_identifier};
-use super::swift_utils::{parse_bic, parse_max_length};
+use super::swift_utils::{parse_bic, parse_max_length, parse_swift_chars};
 use crate::errors::ParseError;
 use crate::traits::SwiftField;
 use serde::{Deserialize, Serialize};
@@ -105,6 +105,8 @@ impl SwiftField for Field54B {
 
         // Check for party identifier on first line
         if !lines.is_empty() && lines[0].starts_with('/') {
+            // [/1!a][/34x]: validated, kept as written
+            parse_party_identifier(lines[0])?;
             party_identifier = Some(lines[0].to_string());
             line_idx = 1;
         }
@@ -118,6 +120,7 @@ impl SwiftField for Field54B {
         // Remaining line is location
         if line_idx < lines.len() && !lines[line_idx].is_empty() {
             location = Some(parse_max_length(lines[line_idx], 35, "Field54B location")?);
+            parse_swift_chars(lines[line_idx], "Field54B location")?;
         }
 
         Ok(Field54B {
